@@ -13,7 +13,7 @@ void asl_verif_spin(const volatile void* flag);    // one iteration of a busy-wa
 
 namespace vsched {
 
-enum { MAXT = 12 };
+enum { MAXT = 16 };
 
 struct PointInfo { uint8_t nenabled; uint8_t running_enabled; uint8_t chosen; uint8_t kind; };
 
